@@ -462,9 +462,11 @@ func outRoot() string {
 }
 
 // lockable: the lock file guards against obligations that silently stop being generated (vacuity).
-// Obligations at control-flow joins and at call sites are auxiliary and named after SSA block
-// numbers and call ordinals, which move under harmless edits; they are checked whenever they are
-// generated but their absence is not an alarm.
-var reUnlockable = regexp.MustCompile(`#join\d+\.\d+:|#call:`)
+// Obligations at control-flow joins, at call sites, at individual events (the n-th store, allocation
+// or map update: "@n") and frame obligations (one per heap array the body writes) are named after
+// the shape of the implementation, which moves under harmless edits; they are checked whenever they
+// are generated but their absence is not an alarm. What is locked is what carries a property by
+// name: postconditions, loop invariants, schema/field/graph/tape/visit labels.
+var reUnlockable = regexp.MustCompile(`#join\d+\.\d+:|#call:|@\d+$|#frame`)
 
 func lockable(name string) bool { return !reUnlockable.MatchString(name) }
